@@ -592,6 +592,11 @@ def plan_C15(tier):
             items += co(src="stream", l=3, i=3, p=1, term=term, stack="t", tn=tn, wp=1)
             items += co(src="vec", l=3, term=term, stack="mt", tn=tn, wp=1)
             items += co(src="stream", l=3, i=3, p=0, term=term, stack="et", tn=tn, wp=1)
+    # a source that stays Pending forever once take(n) has what it needs: the operation must still complete
+    for term in ("collect", "for_each", "try_for_each"):
+        for stack in ("t", "mt", "tm", "et", "tl"):
+            for tn in (0, 1, 2):
+                items += co(src="stream", l=3, i=3, p=1, term=term, stack=stack, tn=tn, lm=1, wp=1, sna=max(tn, 1), ee=0)
     items += co(src="stream", l=0, i=0, p=1, term="collect", stack="me", wp=1)
     items += co(src="vec", l=0, term="collect", stack="m", wp=1)
     return {"items": items, "bounds": "every adapter stack of depth <=2 (3 thorough) over {map, enumerate, take(n), limit(m)} x terminal {collect, for_each, try_for_each} x source length {0,2,3} x all completion orders of the per-item futures (P<=1) x source readiness patterns; take n in {0,1,2,3,4}"}
